@@ -146,6 +146,93 @@ def _seg_kw():
                 manufacturer='m', manufacturer_model_name='mm', software_versions='1', device_serial_number='1')
 
 
+def _late_first_executor():
+    """A valid concurrent.futures.Executor whose futures COMPLETE in the reverse of the submission order unless somebody
+    asks for a result earlier: a future is finished on demand by `result()` (so gathering by position costs no waiting)
+    and otherwise by a timer, last submitted first, once no submission has arrived for 30 ms (so gathering in completion
+    order sees the reverse order)."""
+    import threading
+    from concurrent.futures import Executor, Future
+
+    class LazyFuture(Future):
+        def result(self, timeout=None):
+            self._owner._complete(self)
+            return super().result(timeout)
+
+    class LateFirst(Executor):
+        def __init__(self):
+            self.items, self.lock, self.timer = [], threading.RLock(), None
+
+        def submit(self, fn, /, *a, **k):
+            f = LazyFuture()
+            f._owner, f._job = self, (fn, a, k)
+            with self.lock:
+                self.items.append(f)
+                if self.timer is not None:
+                    self.timer.cancel()
+                self.timer = threading.Timer(0.03, self._drain)
+                self.timer.daemon = True
+                self.timer.start()
+            return f
+
+        def _complete(self, f):
+            with self.lock:
+                if f.done():
+                    return
+                fn, a, k = f._job
+                try:
+                    f.set_result(fn(*a, **k))
+                except BaseException as e:  # noqa: BLE001
+                    f.set_exception(e)
+
+        def _drain(self):
+            with self.lock:
+                items = list(self.items)
+            for f in reversed(items):
+                self._complete(f)
+
+        def shutdown(self, wait=True, *, cancel_futures=False):
+            self._drain()
+    return LateFirst()
+
+
+_THREAD1 = None
+
+
+def encoding_variant(ctx, stream, idx, seg_type, frame_pixels):
+    """Guide 3a / round 4: how the frames are encoded is no part of the placement.  Transfer syntax (native or, where the
+    type allows it, RLE / JPEG-LS lossless) x workers (0, an Executor finishing later calls first, a one-thread pool, in
+    the thorough tier sometimes a process pool of 2)."""
+    r = ctx.rng(stream + 'enc', idx)
+    ts, workers = 'native', 0
+    if seg_type in ('LABELMAP', 'FRACTIONAL') and r.random() < 0.45:
+        ts = r.choice(['RLELossless', 'RLELossless', 'JPEGLSLossless'])
+        if ts == 'JPEGLSLossless' and frame_pixels < 24:
+            ts = 'RLELossless'              # the pyjpegls plugin cannot encode frames of a few pixels (its output buffer is too small)
+        workers = r.choice([0, 'late-first', 'late-first', 'late-first', 'thread1'] + ([2] if ctx.tier == 'thorough' and r.random() < 0.1 else []))
+    elif r.random() < 0.08:
+        workers = 'late-first'              # no effect for native syntaxes (a warning)
+    return ts, workers
+
+
+def encoding_kw(ts, workers):
+    import pydicom.uid as U
+    global _THREAD1
+    kw = {}
+    if ts != 'native':
+        kw['transfer_syntax_uid'] = getattr(U, ts)
+    if workers == 'late-first':
+        kw['workers'] = _late_first_executor()
+    elif workers == 'thread1':
+        if _THREAD1 is None:
+            from concurrent.futures import ThreadPoolExecutor
+            _THREAD1 = ThreadPoolExecutor(1)
+        kw['workers'] = _THREAD1
+    elif workers:
+        kw['workers'] = workers
+    return kw
+
+
 def _fetch(fn, *a, **k):
     try:
         return ('ok', fn(*a, **k))
@@ -530,13 +617,19 @@ def build_vol_case(ctx, idx):
     cs = rv.choice(['PATIENT', hd.CoordinateSystemNames.PATIENT])
     vol = hd.Volume(passed, a, coordinate_system=cs, frame_of_reference_uid=src[0].FrameOfReferenceUID, channels=chan)
     typ, typ_spell = spell_type(rv, seg_type)
+    ts, workers = encoding_variant(ctx, 'vol', idx, seg_type, shape[1] * shape[2])
     descr = {'stream': 'vol', 'idx': idx, 'seed': ctx.seed, 'dir': g['label'], 'h': g['h'], 'exact': g['exact'],
              'shape': list(shape), 'spacing': [rstr(x) for x in g['s']], 'position': [rstr(x) for x in g['p']],
              'type': seg_type, 'nseg': nseg, 'layout': layout, 'omit': omit, 'empties': mode,
-             'empty_planes': sorted(empties), 'memory': mem, 'type_spelling': typ_spell}
+             'empty_planes': sorted(empties), 'memory': mem, 'type_spelling': typ_spell, 'transfer_syntax': ts,
+             'workers': workers}
 
     def mk():
-        seg = hd.seg.Segmentation(src, vol, typ, [seg_description(i + 1) for i in range(nseg)], omit_empty_frames=omit, **_seg_kw())
+        import warnings
+        with warnings.catch_warnings():
+            warnings.simplefilter('ignore')             # workers with a native syntax: documented warning, no effect
+            seg = hd.seg.Segmentation(src, vol, typ, [seg_description(i + 1) for i in range(nseg)], omit_empty_frames=omit,
+                                      **encoding_kw(ts, workers), **_seg_kw())
         if not np.array_equal(passed, arr):
             raise AssertionError('the constructor modified the array of the volume it was given')
         return seg
@@ -660,6 +753,7 @@ def check_vol_case(ctx, descr, g, arr, mk, reqs, pending):
     hkey = dict(stream=descr['stream'], type=seg_type, omit=descr['omit'], empties=descr['empties'], handed=descr['h'],
                 with_sbs=descr.get('with_sbs'), parallel_to_source=descr.get('parallel_to_source'),
                 exact=exact, layout=layout, n0=shape[0], memory=descr.get('memory'), type_spelling=descr.get('type_spelling'),
+                transfer_syntax=descr.get('transfer_syntax'), workers=str(descr.get('workers')),
                 square=shape[1] == shape[2])
     if st != 'ok':
         ctx.case(outcome='construct-refused', **hkey)
@@ -1319,6 +1413,7 @@ def check_tiled_case(ctx, descr, geo, mask, mk, reqs, pending):
     hkey = dict(stream=descr['stream'], type=descr['type'], from_volume=descr['from_volume'], tiled_full=descr['tiled_full'],
                 omit=descr['omit'], exact=exact, placed=descr.get('placed'), origin_delta=descr.get('origin_delta'),
                 same_tile_size=descr.get('same_tile_size'), memory=descr.get('memory'), option_spelling=descr.get('option_spelling'),
+                hand_over=descr.get('hand_over'),
                 tile_square=descr['tile'][0] == descr['tile'][1], remainder=str(descr.get('remainder')))
     st, seg = _fetch(mk)
     if st != 'ok':
@@ -1424,6 +1519,14 @@ def build_tiledpos_case(ctx, idx):
     str_, stc = r.randint(1, 4), r.randint(1, 4)              # tile size of the source
     same_tile = r.random() < 0.6
     tr, tc = (str_, stc) if same_tile else (r.randint(1, 4), r.randint(1, 4))
+    # round 4: the user hands over the individual tiles with explicit positions, in some order (own random stream)
+    rt = ctx.rng('tiledposorder', idx)
+    by_tiles = rt.random() < 0.4
+    if by_tiles:
+        grid = (rt.randint(1, 4), rt.randint(1, 4))
+        if grid == (1, 1):
+            grid = (2, 2)
+        total_r, total_c = grid[0] * tr, grid[1] * tc
     src_ps = (r.choice(SPACINGS), r.choice(SPACINGS))
     src_origin = [F(r.randint(-400, 400), 8), F(r.randint(-400, 400), 8), F(0)]
     sd, _, _ = rand_direction(r, 0)
@@ -1438,6 +1541,8 @@ def build_tiledpos_case(ctx, idx):
     seg_type = r.choice(['BINARY', 'LABELMAP', 'FRACTIONAL'])
     nseg = r.choice([1, 2])
     tiled_full = r.random() < 0.4
+    if by_tiles:
+        placed, tiled_full = 'tiles', False
     omit = (not tiled_full) and r.random() < 0.6
     mask = (nr.random((1, total_r, total_c)) < r.choice([0.2, 0.6])) * nr.integers(1, nseg + 1, size=(1, total_r, total_c))
     mask = mask.astype(np.uint8)
@@ -1452,7 +1557,33 @@ def build_tiledpos_case(ctx, idx):
               dimension_organization_type='TILED_FULL' if tiled_full else 'TILED_SPARSE')
     geo = (rowcos, colcos, src_ps, [(origin, mask[0].astype(np.int64))])
     descs = [seg_description(i + 1) for i in range(nseg)]
-    if placed == 'volume':
+    if placed == 'tiles':
+        # one frame per tile, each with its own PlanePositionSequence (slide coordinates of the tile's first pixel + its
+        # 1-based position in the total pixel matrix); the ORDER of hand-over is free
+        tiles = [(r0, c0) for r0 in range(0, total_r, tr) for c0 in range(0, total_c, tc)]
+        order_name = rt.choice(['row-major', 'column-major', 'reversed', 'reversed', 'shuffled', 'shuffled', 'bottom-up-rows'])
+        if order_name == 'column-major':
+            tiles.sort(key=lambda t: (t[1], t[0]))
+        elif order_name == 'reversed':
+            tiles.reverse()
+        elif order_name == 'shuffled':
+            rt.shuffle(tiles)
+        elif order_name == 'bottom-up-rows':
+            tiles.sort(key=lambda t: (-t[0], t[1]))
+        descr.update(hand_over=order_name, tiles=[list(t) for t in tiles], placed='tiles')
+
+        def tile_pos(r0, c0):
+            return [origin[i] + r0 * src_ps[0] * colcos[i] + c0 * src_ps[1] * rowcos[i] for i in range(3)]
+
+        def mk():
+            pps = [hd.PlanePositionSequence('SLIDE', [float(x) for x in tile_pos(r0, c0)], pixel_matrix_position=(c0 + 1, r0 + 1))
+                   for r0, c0 in tiles]
+            px = np.stack([mask[0, r0:r0 + tr, c0:c0 + tc] for r0, c0 in tiles])
+            po = hd.PlaneOrientationSequence('SLIDE', [float(x) for x in rowcos + colcos])
+            pm = hd.PixelMeasuresSequence(pixel_spacing=[float(x) for x in src_ps], slice_thickness=1.0)
+            return hd.seg.Segmentation([src], px, seg_type, descs, plane_positions=pps, plane_orientation=po, pixel_measures=pm,
+                                       omit_empty_frames=omit, **_seg_kw())
+    elif placed == 'volume':
         vol = hd.Volume.from_attributes(array=mask.copy(), image_position=[float(x) for x in origin],
                                         image_orientation=[float(x) for x in rowcos + colcos],
                                         pixel_spacing=[float(x) for x in src_ps], spacing_between_slices=1.0,
